@@ -249,6 +249,10 @@ class ModelReplayer:
                 elif name == "value":
                     obj = sl[a[0]]
                     values = self.evaluate(obj, a[1])
+                elif name == "setmap":
+                    m = sl[a[0]].mapping
+                    n = len(m)
+                    sl[a[0]].set_mapping({k: (n - 1 - v if a[1] == "rev" else (v + 1) % n) for k, v in m.items()})
                 elif name == "poke":
                     self.poke(sl[a[0]])
                 elif name == "ctor":
